@@ -103,11 +103,15 @@ def lazy(inp):
         return {"got": [float(m.underflow), float(m.overflow)], "expected": [0, 0], "witness_class": "underflow/overflow touched"}
 
 
+def lin_density(x, a=0.3, b=0.2):          # (curved: the rectangle rule and Simpson's rule give different bin contents)
+    return a * x * x * x + b
+
+
 def gen_fit(tier, seed):
     for density in (True, False):
         for extra in ([], [-5.0, 9.0, 9.5]):
             for method in ("simpson", "rectangle"):
-                for via in ("constructor", "data-replaced", "model-rebinned") + (("wrapper",) if method == "simpson" else ()):
+                for via in ("constructor", "data-replaced", "model-rebinned", "reloaded") + (("wrapper",) if method == "simpson" else ()):
                     yield {"density": density, "outside": extra, "method": method, "via": via}
 
 
@@ -122,6 +126,15 @@ def fit_model(inp):
         wrapper = imp("kafe2.fit.util.wrapper")
         wrapper.hist_fit(f, list(entries), bin_edges=list(edges), density=inp["density"], report=False, profile=False, save=False)
         fit = wrapper._fit_history[-1]["fit"]
+    elif via == "reloaded":                  # a fit written to a file and read back evaluates its bins the same way
+        import tempfile, os
+        f = lin_density          # (a function whose source text stands on its own: a closure cannot be written to a file)
+        f0 = HistFit(h, f, bin_evaluation=inp["method"], density=inp["density"])
+        d_ = tempfile.mkdtemp(prefix="c13_")
+        p_ = os.path.join(d_, "fit.yml")
+        f0.to_file(p_)
+        fit = HistFit.from_file(p_)
+        os.remove(p_); os.rmdir(d_)
     elif via == "data-replaced":             # same number of bins and same range, other inner edges: the model has to be integrated over the bins of the data now in the fit
         fit = HistFit(HistContainer(bin_edges=[0.0, 2.0, 3.0, 4.0], fill_data=list(entries)), f, bin_evaluation=inp["method"], density=inp["density"])
         _ = fit.model
